@@ -1,6 +1,8 @@
 #!/bin/bash
 # usage: tools/seed_batch.sh C07 C10 ...   (evaluates /tmp/seed_<id>/m1 and m2 against the checks of the same family)
-cd /verif
+cd "$(dirname "$0")/.."
+[ -n "$VP_RUN_REPO" ] && export VERIF_REPO=$VP_RUN_REPO
+[ -d coq/Model ] && [ ! -f coq/Model/Floor.vo ] && ./check --setup | tail -2
 fam() { case $1 in C01|C07) echo C01,C07;; C09|C10) echo C09,C10;; C12) echo C12;; C18) echo C18;; C19) echo C19;; C14) echo C14,C01;; C20) echo C20;; *) echo C02,C03,C04,C05,C06,C08,C11,C13,C15,C16,C17;; esac; }
 claimed=$(python3 -c "import json;print(' '.join(c['property_id'] for c in json.load(open('MANIFEST.json'))['checks']))")
 for id in "$@"; do
